@@ -1744,6 +1744,13 @@ class Engine:
             return k.obj.ident
         if is_intlike(k):
             return term(k)
+        if isinstance(k, ClassRef):
+            # a class used as a key: one fixed (negative) integer per class name
+            names = self.__dict__.setdefault('_class_keys', {})
+            nm = getattr(k, 'name', None) or getattr(k, 'qual', None) or repr(k)
+            if nm not in names:
+                names[nm] = -1000 - len(names)
+            return z3.IntVal(names[nm])
         raise EngineError('container key %r not supported' % (k,))
 
     # ---------------------------------------------------------- expressions
